@@ -73,6 +73,10 @@ def polynomial_from_attributes(
         polynomial(0)
 
     """
+    if dtype is None and len(coefficients):
+        # the common type of all coefficients as given: neither of whichever
+        # comes first nor of those that survive the removal of zero terms
+        dtype = numpy.result_type(*[numpy.asarray(coeff) for coeff in coefficients])
     exponents, coefficients, names = clean.postprocess_attributes(
         exponents=exponents,
         coefficients=coefficients,
@@ -81,8 +85,6 @@ def polynomial_from_attributes(
         retain_names=retain_names,
     )
     if coefficients:
-        # the common type of all coefficients (not of whichever happens to come first)
-        dtype = numpy.result_type(*coefficients) if dtype is None else dtype
         shape = coefficients[0].shape
     else:
         dtype = dtype if dtype else int
